@@ -18,3 +18,9 @@ pub fn string_from_utf8_ioerr(b: Bytes, kind: ErrorKind) -> (r: IoResult<String>
 pub proof fn axiom_string_utf8(s: String)
     ensures is_utf8(string_bytes(s)),
 { }
+
+/// `String::from_utf8_lossy(&b).into_owned()` / `.to_string()`: identity on valid UTF-8, ARBITRARY replacement otherwise
+#[verifier::external_body]
+pub fn string_from_utf8_lossy(b: Bytes) -> (r: String)
+    ensures is_utf8(b@) ==> string_bytes(r) == b@,
+{ unimplemented!() }
